@@ -159,6 +159,57 @@ fn main() {
             c.cleanup();
             std::process::exit(0);
         }
+        "__smoke-c06" => {
+            let work = std::path::PathBuf::from("/verif/work/smoke6");
+            std::fs::create_dir_all(&work).ok();
+            let mut c = rnv::cluster::Cluster::new(&work, "c1", 3, 11, std::collections::BTreeMap::new()).unwrap();
+            println!("form: {:?}", c.form());
+            let l = (0..3).find(|i| c.metrics(*i).map(|m| m["state"] == "Leader").unwrap_or(false)).unwrap();
+            let fs: Vec<usize> = (0..3).filter(|i| *i != l).collect();
+            println!("leader node{}", l + 1);
+            for f in &fs { c.sigstop(*f); }
+            let url = c.http(l);
+            let h = std::thread::spawn(move || {
+                let cl = reqwest::blocking::Client::builder().timeout(std::time::Duration::from_secs(45)).build().unwrap();
+                cl.post(format!("{}/nacos/v1/cs/configs", url)).form(&[("dataId", "a"), ("group", "g"), ("content", "A-old-leader")]).send().map(|r| (r.status().as_u16(), r.text().unwrap_or_default()))
+            });
+            std::thread::sleep(std::time::Duration::from_millis(1500));
+            c.sigstop(l);
+            for f in &fs { c.sigcont(*f); }
+            let t0 = Instant::now();
+            let mut nl = None;
+            while t0.elapsed().as_secs() < 25 && nl.is_none() {
+                for f in &fs { if c.metrics(*f).map(|m| m["state"] == "Leader").unwrap_or(false) { nl = Some(*f); } }
+                std::thread::sleep(std::time::Duration::from_millis(100));
+            }
+            println!("new leader {:?}", nl.map(|x| x + 1));
+            println!("publish b via new leader: {:?}", c.publish(nl.unwrap(), "", "g", "b", "B-new-leader"));
+            c.sigcont(l);
+            println!("old leader answered: {:?}", h.join().ok());
+            for i in 0..3 { println!("metrics node{} {:?}", i + 1, c.metrics(i).map(|m| format!("{} L{} t{} log{} app{}", m["state"], m["current_leader"], m["current_term"], m["last_log_index"], m["last_applied"]))); }
+            let r = c.publish(l, "", "g", "k2", "K2-via-old-leader");
+            println!("publish k2 via old leader node{}: {:?}", l + 1, r);
+            for i in 0..3 { println!("metrics node{} {:?}", i + 1, c.metrics(i).map(|m| format!("{} L{} t{} log{} app{}", m["state"], m["current_leader"], m["current_term"], m["last_log_index"], m["last_applied"]))); }
+            std::thread::sleep(std::time::Duration::from_secs(4));
+            for i in 0..3 { println!("node{} serves k2={:?} a={:?} b={:?}", i + 1, c.get(i, "", "g", "k2"), c.get(i, "", "g", "a"), c.get(i, "", "g", "b")); }
+            for i in 0..3 { println!("=== node{} log\n{}", i + 1, std::fs::read_to_string(&c.nodes[i].log).unwrap_or_default().lines().filter(|l| l.contains("ERROR") || l.contains("RaftRoute") || l.contains("cs/configs")).map(|l| l.chars().skip(11).take(200).collect::<String>()).collect::<Vec<_>>().join("\n")); }
+            c.cleanup();
+            std::process::exit(0);
+        }
+        "__dump-store" => {
+            // debug: print the recovered raft store of a data directory (index, term, payload text)
+            match rnv::c04::recover(std::path::Path::new(&args[2])) {
+                Ok(r) => {
+                    println!("term {} vote {:?} members {:?} last_applied {} last_log {}/{} snapshot_end {}", r.term, r.vote, r.members, r.last_applied, r.last_log_index, r.last_log_term, r.snapshot_end);
+                    for (i, t, p, ptr) in &r.entries {
+                        let txt: String = String::from_utf8_lossy(p).chars().filter(|c| !c.is_control()).take(110).collect();
+                        println!("{:4} t{} {}{}", i, t, if *ptr { "[pointer] " } else { "" }, txt);
+                    }
+                }
+                Err(e) => println!("cannot recover: {}", e),
+            }
+            unsafe { libc::_exit(0) }
+        }
         "__c04-record" => {
             if args.len() < 4 {
                 usage();
